@@ -363,7 +363,9 @@ func baseSamples(k string) []interface{} {
 		return []interface{}{"2014-12-31T23:00:00-08:00", "2000-02-29T12:30:45Z", "1999-12-31T23:59:59+14:00", "2024-03-10T02:30:00-12:00",
 			"1970-01-01T00:00:00Z", "2038-01-19T03:14:08Z", "0001-01-01T00:00:00Z", "9999-12-31T23:59:59Z", "2016-05-10T00:00:00+05:45"}
 	case "XMLSchemaDuration":
-		return []interface{}{"PT5S", "PT2H", "P1D", "P1Y", "P1M", "P1Y2M3DT4H5M6S", "-PT30M", "-P1Y1M1DT1H1M1S", "P11M29DT23H59M59S", "PT1M", "P289Y", "P1DT1S"}
+		return []interface{}{"PT5S", "PT2H", "P1D", "P1Y", "P1M", "P1Y2M3DT4H5M6S", "-PT30M", "-P1Y1M1DT1H1M1S", "P11M29DT23H59M59S", "PT1M", "P289Y", "P1DT1S",
+			// sign x {date part only, time part only, both}; single components
+			"-P1D", "-P1Y", "-P1M", "-P2Y3M", "-P3M4D", "-P1Y2M3D", "-PT1S", "-PT2H", "-PT1M", "-P1DT1S", "-P1YT1H", "P2Y3M", "P3M4D", "P29D", "PT23H", "PT59M59S", "PT1H1S"}
 	case "XMLSchemaBoolean":
 		return []interface{}{true, false}
 	case "XMLSchemaFloat":
@@ -439,11 +441,22 @@ func randomSample(k string, g *prng.R) interface{} {
 				S = 0
 			}
 		}
+		// shapes: date part only / time part only (each with either sign)
+		switch g.Intn(6) {
+		case 0:
+			H, Mi, S = 0, 0, 0
+		case 1:
+			Y, M, D = 0, 0, 0
+		}
 		if Y+M+D+H+Mi+S == 0 {
-			S = 1
+			if g.Bool() {
+				S = 1 + g.Intn(59)
+			} else {
+				D = 1 + g.Intn(29)
+			}
 		}
 		s := "P"
-		if g.Chance(1, 4) {
+		if g.Chance(1, 3) {
 			s = "-P"
 		}
 		if Y > 0 {
